@@ -15,6 +15,7 @@ RULE = ("single operations: every gate of the alphabet x every register width x 
         "sequence alphabet, through SymbolicSimulator and the base-class simulator with everything / nothing native. "
         "non-trivial = reference unitary differs from identity and (single ops) index tuple is not (0..k-1) on k qubits, "
         "(sequences) ops do not all commute trivially i.e. length >= 2; distinct = canonical case json")
+RULE += ' Round 6: circuits of 63-257 operations (at once / concatenated halves); MultiPhaseOperations with uniform, zero, pi and two-valued angle tuples alone and between gates.'
 RULE += ' Round 5: registers of 7-10 qubits (asymmetric 2-/3-qubit gates on far-apart, descending and adjacent tuples through apply / lifted_matrix / to_unitary / the bundled simulator); one simulator object answering every history of 2 calls over 6 circuits x 3 initial states.'
 ASSUMPTIONS = ["numpy dense arithmetic is correct", "the gate's own numeric matrix (gate.matrix) is taken as given (C02/C07 decide it)",
                "qubit 0 = most significant bit; first listed qubit = most significant bit of the gate's own index"]
@@ -116,6 +117,34 @@ def sequence(case):
             s = op.apply(s)
         if not np.allclose(np.asarray(s, dtype=complex).reshape(-1), exp @ v, atol=ATOL):
             return {**r, **fail("applying the operations one at a time differs from the circuit matrix", exp @ v, s, "seq:apply")}
+    return r
+
+
+def long_sequence(case):
+    """{'ops': [...], 'n': n, 'split': k?}: a long circuit (built at once, or as the concatenation of two halves): to_unitary = ordered product, op-by-op application, simulator"""
+    from orquestra.quantum.runners.symbolic_simulator import SymbolicSimulator
+    n = case["n"]
+    if case.get("split"):
+        k_ = case["split"]
+        c = mk_circuit({"ops": case["ops"][:k_], "n": n}) + mk_circuit({"ops": case["ops"][k_:], "n": n})
+    else:
+        c = mk_circuit(case)
+    exp = ref_unitary(case["ops"], n)
+    if len(c.operations) != len(case["ops"]) or c.n_qubits != n:
+        return {"ok": False, "msg": "long circuit: number of operations / width changed", "sig": "long:shape"}
+    U = num(c.to_unitary())
+    r = {"ok": True, "nt": True, "ops": 2 * len(case["ops"]), "out": "len%d" % len(case["ops"])}
+    if U.shape != exp.shape or not np.allclose(U, exp, atol=1e-8):
+        return {**r, **fail("to_unitary() of a circuit of %d operations differs from the ordered product of embedded gate matrices" % len(case["ops"]), exp, U, "long:to_unitary")}
+    v = dense_vec(n)
+    s_ = v
+    for op in c.operations:
+        s_ = op.apply(s_)
+    if not np.allclose(np.asarray(s_, dtype=complex).reshape(-1), exp @ v, atol=1e-8):
+        return {**r, **fail("applying the operations one at a time differs from the circuit matrix", exp @ v, s_, "long:apply")}
+    got = np.asarray(SymbolicSimulator().get_wavefunction(c).amplitudes, dtype=complex).reshape(-1)
+    if not np.allclose(got, exp[:, 0], atol=1e-8):
+        return {**r, **fail("SymbolicSimulator state of a long circuit differs from the circuit matrix applied to |0..0>", exp[:, 0], got, "long:sim")}
     return r
 
 
@@ -356,7 +385,7 @@ def empty_case(case):
 
 
 FUNCS = {"construction": construction_case, "wide": wide_case, "sim_history": sim_history, "sim_single": simulate, "sim_sequences": simulate, "single_ops": single_op, "single_ops_symbolic": single_op, "sequences": sequence, "concat": concat, "simulators": simulate,
-         "multiphase": multiphase, "empty": empty_case}
+         "multiphase": multiphase, "empty": empty_case, "long_sequences": long_sequence, "sim_multiphase": simulate}
 
 TH = 0.3
 
@@ -499,6 +528,26 @@ def run(run):
             wcases.append({"gate": W("controlled", G("X"), k=2), "q": list(p), "n": n})
     secs.append(Section("wide", wcases, wide_case, chunk=2, desc="registers of 7-10 (thorough 11) qubits: asymmetric 2- and 3-qubit gates on far-apart, descending and adjacent index tuples through apply / "
                         "lifted_matrix / to_unitary / SymbolicSimulator (matrices up to 10 qubits)"))
+    # uniform angle tuples (a "global phase" that is still a phase), all-zero, two-valued, multiples of 2*pi
+    for n in (1, 2, 3):
+        for th in ([0.9] * 2 ** n, [0.0] * 2 ** n, [2 * np.pi] * 2 ** n, [np.pi] * 2 ** n, [0.9, -0.4] * 2 ** (n - 1), [0.0] * (2 ** n - 1) + [1.3], [-2.2] + [0.0] * (2 ** n - 1)):
+            cases += [{"n": n, "thetas": th, "i": i} for i in list(range(2 ** n)) + [-1]]
+    mpc = []
+    for n in (1, 2):
+        for th in ([0.9] * 2 ** n, [0.0] * 2 ** n, [np.pi] * 2 ** n, [0.9, -0.4] * 2 ** (n - 1), [0.1 + 0.37 * k for k in range(2 ** n)]):
+            m_ = {"mp": th}
+            t_, h_ = {"gate": G("custom1"), "q": [0]}, {"gate": G("H"), "q": [n - 1]}
+            for ops in ([m_], [h_, m_], [m_, h_], [h_, m_, h_], [m_, m_], [t_, m_, h_, m_], [h_, m_, m_, t_]):
+                mpc.append({"ops": ops, "n": n, "labels": None})
+                mpc += [{"ops": ops, "n": n, "labels": list(lb)} for lb in itertools.product([1, 0], repeat=len(ops))]
+    secs.append(Section("sim_multiphase", mpc, simulate, desc="MultiPhaseOperations with uniform / zero / pi / two-valued / distinct angles between gates, through SymbolicSimulator and every native labeling of the base class"))
+    # long circuits: a periodic clean-up, a fused run or a chunked product would show from some length on
+    lc = []
+    for Ln in ((63, 64, 65, 66, 100, 127, 128, 129, 130, 200, 256, 257, 300) if thorough else (63, 64, 65, 66, 129, 257)):
+        for stride, off in ((5, 0), (11, 3)):
+            lc.append({"ops": [A[(off + stride * i) % len(A)] for i in range(Ln)], "n": 3})
+        lc.append({"ops": [A[(7 * i) % len(A)] for i in range(Ln)], "n": 3, "split": Ln // 2})
+    secs.append(Section("long_sequences", lc, long_sequence, chunk=1, desc="circuits of 63-257 (thorough 300) operations on 3 qubits, built at once and by concatenating two halves: to_unitary, one-at-a-time application, SymbolicSimulator"))
     secs.append(Section("multiphase", cases, multiphase, desc="MultiPhaseOperation.apply on every basis state"))
     secs.append(Section("construction", [{"kind": k_, "mutations": list(m_), **({"n": nn} if nn else {})} for k_ in ("list", "tuple", "iterator", "generator") for nn in (None, 3)
                                          for m_ in itertools.product(("append", "clear", "reverse", "replace"), repeat=2)], construction_case,
